@@ -13,6 +13,19 @@ HARNESS = os.path.join(VERIF, "harness")
 WORKROOT = os.path.join(VERIF, "work")
 EVID = os.path.join(VERIF, "evidence")
 REPO = "/repo"
+# Development aid (never used by the registered commands): run the checks against a scratch copy/worktree of
+# the repository without touching /repo.  VERIF_REPO=<dir> overrides the path dependency through cargo's
+# `paths` override and switches to a separate target dir, work root and evidence dir (VERIF_ALT names them).
+ALT_REPO = os.environ.get("VERIF_REPO")
+ALT = os.environ.get("VERIF_ALT", "alt") if ALT_REPO else None
+TARGET = os.path.join(HARNESS, "target-" + ALT) if ALT else os.path.join(HARNESS, "target")
+if ALT:
+    WORKROOT = os.path.join(VERIF, "work", "_" + ALT)
+    EVID = os.path.join(WORKROOT, "evidence")
+
+
+def cargo_extra():
+    return ["--config", 'paths=["%s"]' % ALT_REPO, "--target-dir", TARGET] if ALT else []
 TLA_CP = "/opt/veriftools/tla/tla2tools.jar:/opt/veriftools/tla/CommunityModules-deps.jar"
 
 
@@ -72,11 +85,12 @@ def cargo_build(bins, features=(), package="vh", profile_release=False):
         cmd += ["--bin", b]
     if features:
         cmd += ["--features", ",".join(features)]
+    cmd += cargo_extra()
     with Lock("cargo"):
         p = run(cmd, cwd=HARNESS, env={"CARGO_NET_OFFLINE": "true", "RUSTFLAGS": os.environ.get("RUSTFLAGS", "") + " -Awarnings"})
     if p.returncode != 0:
         raise ToolError("cargo build failed:\n" + p.stderr[-6000:])
-    return os.path.join(HARNESS, "target", "debug")
+    return os.path.join(TARGET, "debug")
 
 
 class TLCResult:
